@@ -1,6 +1,7 @@
 //! Syntax crate driver.  Cases:
 //!   (parse #text) (parse_owned #text) (parse_runtime #text) (parse_runtime_owned #text)
 //!        -> (ok <resource> (<error> ...))      error = (Kind payload.. pos_start pos_end slice|none)
+//!   (parse_all #text) -> (ok <parse &str> <parse String> <parse_runtime &str> <parse_runtime String>)
 //!   (serialize true|false <resource>)   -> (ok #text)
 //!   (roundtrip true|false #text)        -> (ok <tree1> #ser1 <tree2> #ser2)   parse, serialize, parse, serialize
 //!   (unescape #text)                    -> (ok borrowed|owned #string #writer-output)
@@ -59,6 +60,16 @@ fn result<S: AsRef<str>>(
 fn run(case: &Sexp) -> Sexp {
     let c = case.as_list();
     match c[0].as_str() {
+        "parse_all" => {
+            let t = c[1].as_str();
+            list(vec![
+                sym("ok"),
+                result(parser::parse(t)),
+                result(parser::parse(t.to_string())),
+                result(parser::parse_runtime(t)),
+                result(parser::parse_runtime(t.to_string())),
+            ])
+        }
         "parse" => result(parser::parse(c[1].as_str())),
         "parse_owned" => result(parser::parse(c[1].as_str().to_string())),
         "parse_runtime" => result(parser::parse_runtime(c[1].as_str())),
